@@ -27,6 +27,7 @@ func init() {
 	plans["C13"] = []Part{
 		{WL: "patch", Cfg: "prop=C13", Quick: 250, Thor: 6000},
 		{WL: "patch", Cfg: "prop=C13,writefaults=1", Quick: 100, Thor: 3000},
+		{WL: "patch", Cfg: "prop=C13,conflicts=1", Quick: 150, Thor: 4000},
 	}
 }
 
@@ -189,6 +190,7 @@ func runPatchWL(e *Env) {
 	wl := e.WL
 	webhookPolicy(e, "pkg/kube/object_patch/", "pkg/shell-operator/operator.go")
 	writeFaults := e.CfgIs("writefaults", "1")
+	conflicts := e.CfgIs("conflicts", "1")
 	h := &HookSpec{Path: "p.sh", Sched: []SchedBinding{{Name: "tick", Crontab: "* * * * * *", Queue: "pq"}}}
 	o := NewOpSim(e, []*HookSpec{h})
 	api := o.API
@@ -259,12 +261,12 @@ func runPatchWL(e *Env) {
 	}
 	invalidDoc := func() pDoc {
 		docs := []map[string]any{
-			{"operation": "DeleteInBackground", "kind": "ConfigMap", "namespace": "@NS@"},                                                               // name missing
-			{"operation": "Explode", "kind": "ConfigMap", "name": "c0", "namespace": "@NS@"},                                                            // unknown operation
-			{"operation": "Create"},                                                                                                                    // object missing
-			{"operation": "MergePatch", "kind": "ConfigMap", "name": "c0", "namespace": "@NS@", "mergePatch": map[string]any{}},                         // empty patch
+			{"operation": "DeleteInBackground", "kind": "ConfigMap", "namespace": "@NS@"},    // name missing
+			{"operation": "Explode", "kind": "ConfigMap", "name": "c0", "namespace": "@NS@"}, // unknown operation
+			{"operation": "Create"}, // object missing
+			{"operation": "MergePatch", "kind": "ConfigMap", "name": "c0", "namespace": "@NS@", "mergePatch": map[string]any{}},                                    // empty patch
 			{"operation": "JSONPatch", "kind": "ConfigMap", "name": "c0", "namespace": "@NS@", "jsonPatch": []any{map[string]any{"op": "add", "path": "/data/x"}}}, // value missing
-			{"operation": "JQPatch", "kind": "ConfigMap", "name": "c0", "namespace": "@NS@"},                                                            // jqFilter missing
+			{"operation": "JQPatch", "kind": "ConfigMap", "name": "c0", "namespace": "@NS@"},                                                                       // jqFilter missing
 		}
 		i := wl.Choose(len(docs))
 		return pDoc{M: docs[i], Invalid: true, Desc: fmt.Sprint("INVALID#", i)}
@@ -366,6 +368,18 @@ func runPatchWL(e *Env) {
 		planned++
 		x.Patch = render(streams[si], ns, yaml)
 		runs = append(runs, &run{Exec: x, Stream: si, NS: ns, YAML: yaml})
+		if conflicts {
+			api.mu.Lock()
+			api.ConflictUpdates = 0 // conflicts not consumed by the previous execution do not pile up
+			api.mu.Unlock()
+		}
+		if conflicts && e.FL.Choose(2) == 0 {
+			// optimistic-lock conflicts: the patcher must retry (CreateOrUpdate, JQPatch), the outcome is
+			// that of a fault-free run
+			api.mu.Lock()
+			api.ConflictUpdates = 1 + e.FL.Choose(2) // fewer than the retry budget of client-go's DefaultBackoff (4 attempts)
+			api.mu.Unlock()
+		}
 		if writeFaults && e.FL.Choose(4) == 0 {
 			api.mu.Lock()
 			api.FailWrite[[]string{"create", "update", "patch", "delete"}[e.FL.Choose(4)]]++
